@@ -114,6 +114,10 @@ namespace
         bool free_run = false;
         int alive = 0;
         std::map<std::thread::id, std::string> names;
+        std::map<std::string, bool> parked, finished;
+        std::map<std::string, bool> in_exec;      // the thread passed exec_acquired in its current call (it is an executor until the call returns)
+        std::map<std::string, bool> at_hook;      // the point the thread is parked at is a sync point inside runtime::execute (not a call boundary)
+        int overlap = 0;                          // a thread became executor while the other one was parked inside its own executor section
     };
     gate* g_gate = nullptr;
     std::atomic<long long> g_instr{ 0 };       // instructions executed so far (H3 instr_done)
@@ -121,15 +125,24 @@ namespace
     {
         if (what == verif::obs::instr_done) { g_instr++; }
     }
+    // Lockstep: a thread passes a scheduling point only when the slot is its own AND the other thread is parked at a
+    // scheduling point of its own (or has finished) - otherwise the other thread would still be running towards its next
+    // point and the interleaving would be decided by the operating system. A thread that executes something without
+    // scheduling points (a loop without instructions) never parks: after a grace period the waiting thread goes on.
     void wait_turn(const std::string& who)
     {
         std::unique_lock<std::mutex> lock(g_gate->m);
-        g_gate->cv.wait(lock, [&] {
-            if (g_gate->free_run || g_gate->next >= g_gate->schedule.size()) { return true; }
-            if (g_gate->schedule[g_gate->next] == who) { return true; }
-            // the scheduled thread has finished all its calls: skip its remaining slots
-            return false;
-        });
+        const std::string other = who == "E" ? "C" : "E";
+        g_gate->parked[who] = true;
+        g_gate->cv.notify_all();
+        auto mine = [&] { return g_gate->free_run || g_gate->next >= g_gate->schedule.size() || g_gate->schedule[g_gate->next] == who; };
+        auto other_still = [&] { return g_gate->parked[other] || g_gate->finished[other]; };
+        g_gate->cv.wait(lock, [&] { return mine(); });
+        if (!g_gate->free_run && g_gate->next < g_gate->schedule.size())
+        {
+            g_gate->cv.wait_for(lock, std::chrono::milliseconds(250), [&] { return other_still(); });
+        }
+        g_gate->parked[who] = false;
         if (!g_gate->free_run && g_gate->next < g_gate->schedule.size()) { g_gate->next++; }
         g_gate->cv.notify_all();
     }
@@ -147,6 +160,13 @@ namespace
         {
             std::unique_lock<std::mutex> lock(g_gate->m);
             who = g_gate->names[std::this_thread::get_id()];
+            const std::string other = who == "E" ? "C" : "E";
+            if (where == verif::sync::exec_acquired)
+            {
+                if (g_gate->in_exec[other] && g_gate->parked[other] && g_gate->at_hook[other]) { g_gate->overlap++; }
+                g_gate->in_exec[who] = true;
+            }
+            g_gate->at_hook[who] = true;
         }
         wait_turn(who);
     }
@@ -167,8 +187,10 @@ static void cmd_ctlmt(const J& c)
     {
         auto set = compile(rt, text, "ctl.sqf", false);
         if (!set.has_value()) { J e = ev("Crash"); e.set("why", "script does not compile"); emit(e); return; }
-        add_context(rt, *set, "ctl", false);
+        // "slice": the script is scheduled in slices of that many instructions (the executor polls the request flags between them)
+        add_context(rt, *set, "ctl", c.num("slice", 0) > 0);
     }
+    verif::get().slice_len = (size_t)c.num("slice", 0);
     gate g;
     for (auto& s : c.at("schedule").a) { g.schedule.push_back(s.s); }
     g_gate = &g;
@@ -184,14 +206,17 @@ static void cmd_ctlmt(const J& c)
         }
         for (auto& a : calls)
         {
+            { std::unique_lock<std::mutex> lock(g.m); g.at_hook[who] = false; }
             wait_turn(who);          // beginning a call is a scheduling point too
             auto res = rt.execute(action_of(a));
+            { std::unique_lock<std::mutex> lock(g.m); g.in_exec[who] = false; g.at_hook[who] = false; }
             if (who == "E") { g_exec_end_ms = now_steady_ms(); }
             J e = ev("Ret");
             e.set("t", who).set("a", a).set("res", result_name(res)).set("instr", (long long)g_instr.load());
             emit(e);
         }
         std::unique_lock<std::mutex> lock(g.m);
+        g.finished[who] = true;
         // drop this thread's remaining slots so that the other one is not blocked forever
         std::vector<std::string> rest;
         for (size_t i = g.next; i < g.schedule.size(); i++) { if (g.schedule[i] != who) { rest.push_back(g.schedule[i]); } }
@@ -206,10 +231,12 @@ static void cmd_ctlmt(const J& c)
     te.join(); tc.join();
     verif::get().at_sync = nullptr;
     verif::get().observe = nullptr;
+    verif::get().slice_len = 0;
     g_gate = nullptr;
     J f = ev("Final");
     f.set("instr", (long long)g_instr.load());
     f.set("deadline", deadline_hit.load());
+    f.set("overlap", (long long)g.overlap);
     // how long the executor's (last) call went on after the request flag had been written (-1: no flag / it ended before)
     f.set("lag_ms", (g_flag_ms.load() >= 0 && g_exec_end_ms.load() >= g_flag_ms.load()) ? g_exec_end_ms.load() - g_flag_ms.load() : -1LL);
     f.set("state", state_name(rt.runtime_state())).set("nctx", (long long)nctx(rt)).set("exitreq", rt.is_exit_requested());
